@@ -1607,6 +1607,42 @@ def forced_parens_rule(run, P, rule, cls_fq):
     return n
 
 
+def comparison_rule(run, P, rule, cls_fq):
+    """The operands of a comparison are printed above the precedence of a comparison, so
+    that an operand that is itself a comparison comes out in parentheses."""
+    C = P.cls(cls_fq)
+    f = P.method(C, "map_comparison")
+    if f is None:
+        raise AnalysisError(f"{C.name}: no map_comparison in the class or its bases")
+    recs = [x for x in ast.walk(f.node) if isinstance(x, ast.Call) and dotted(x.func) == "self.rec"
+            and len(x.args) >= 2 and isinstance(x.args[0], ast.Attribute)
+            and x.args[0].attr in ("left", "right")]
+    if len(recs) != 2:
+        raise AnalysisError(f"{f.qualname}: two operand prints (left, right) expected, {len(recs)} found")
+    consts = prec_constants(P)
+    base = consts.get("PREC_COMPARISON")
+
+    def level(e):
+        if isinstance(e, ast.Name) and e.id in consts:
+            return consts[e.id]
+        if isinstance(e, ast.BinOp) and isinstance(e.op, ast.Add) and isinstance(e.right, ast.Constant) \
+                and isinstance(e.right.value, int):
+            l_ = level(e.left)
+            return None if l_ is None else l_ + e.right.value
+        return None
+    for x in recs:
+        lv = level(x.args[1])
+        if lv is None or base is None:
+            raise AnalysisError(f"{f.qualname}: precedence {norm(x.args[1])} not read")
+        run.ob(rule, f if not f.module.trusted else C, x if not f.module.trusted else None, lv > base,
+               construct=f"{C.name}.map_comparison ({'pymbolic' if f.module.trusted else 'own'}): the "
+                         f"{x.args[0].attr} operand is printed above the precedence of a comparison "
+                         f"({norm(x.args[1])})",
+               why="'(a < b) == c' printed as 'a < b == c' is a chain in Python - 'a < b and b == c' - "
+                   "and not an expression at all in Fortran: the guard the generated code tests is "
+                   "not the guard the interpreter evaluates")
+
+
 def _sum_order(run, P):
     """The interpreter adds the terms of a sum one after the other, like the code
     both generators print."""
@@ -1632,6 +1668,7 @@ def _sum_order(run, P):
 def _prec(run, P):
     run.do(_sum_order, run, P)
     forced_parens_rule(run, P, "C01.prec", "dagrt.codegen.expressions.PythonExpressionMapper")
+    run.do(comparison_rule, run, P, "C01.prec", "dagrt.codegen.expressions.PythonExpressionMapper")
     consts = prec_constants(P)
     f = P.func("dagrt.codegen.expressions.PythonExpressionMapper.map_if")
     my = None
